@@ -280,10 +280,16 @@ static bool chpen(TickitTermDriver *ttd, const TickitPen *delta, const TickitPen
         params[pindex++] = onoff->off;
       else if(val == 1)
         params[pindex++] = onoff->on;
-      else {
+      else if(xd->cap.csi_sub_colon) {
         params[pindex++] = onoff->on | CSI_MORE_SUBPARAM;
         params[pindex++] = val;
       }
+      else
+        /* Without sub-parameter support "4;2" would be read as underline plus
+         * faint. SGR 21 is ECMA-48's doubly-underlined; other styles can only
+         * be approximated by a single underline
+         */
+        params[pindex++] = (val == TICKIT_PEN_UNDER_DOUBLE) ? 21 : onoff->on;
       break;
 
     case TICKIT_PEN_ALTFONT:
